@@ -1,7 +1,412 @@
 /- helper lemmas for TjdProps/C17.lean -/
 import Mathlib.Algebra.Order.Field.Basic
+import Mathlib.Data.Matrix.Mul
+import Mathlib.LinearAlgebra.Matrix.NonsingularInverse
+import Mathlib.Algebra.BigOperators.Fin
+import Mathlib.Tactic.Ring
+import Mathlib.Tactic.Linarith
+import Mathlib.Tactic.FieldSimp
 import TjdModel.Agg.Spec2
 import TjdLemmas.QPLemmas
 namespace Tjd.Agg
+open Tjd Matrix
+set_option linter.unusedSectionVars false
+set_option linter.unusedSimpArgs false
+
+variable {α : Type} [Field α] [LinearOrder α] [IsStrictOrderedRing α]
+
+/-! ### list-level linearity of `dot`, `vsum`, `combine` -/
+
+theorem dot_zeros_right (r : Vec α) (n : Nat) : dot r (zeros n) = 0 := by
+  rw [dot_eq_left r.length r _ le_rfl, toFn_zeros, dotProduct_zero]
+
+theorem dot_zeros_left (r : Vec α) (n : Nat) : dot (zeros n) r = 0 := by
+  rw [dot_comm', dot_zeros_right]
+
+theorem dot_vadd_right (r x y : Vec α) (h : x.length = y.length) :
+    dot r (vadd x y) = dot r x + dot r y := by
+  rw [dot_eq_left r.length r _ le_rfl, toFn_vadd _ x y h, dotProduct_add,
+    ← dot_eq_left r.length r x le_rfl, ← dot_eq_left r.length r y le_rfl]
+
+theorem dot_smul_right (r : Vec α) (c : α) (x : Vec α) : dot r (smul c x) = c * dot r x := by
+  rw [dot_eq_left r.length r _ le_rfl, toFn_smul, dotProduct_smul, smul_eq_mul,
+    ← dot_eq_left r.length r x le_rfl]
+
+theorem dot_smul_left (c : α) (x y : Vec α) : dot (smul c x) y = c * dot x y := by
+  rw [dot_comm', dot_smul_right, dot_comm']
+
+theorem smul_zeros (c : α) (n : Nat) : smul c (zeros n : Vec α) = zeros n := by
+  simp [smul, zeros]
+
+theorem vadd_zeros_zeros (n : Nat) : vadd (zeros n : Vec α) (zeros n) = zeros n := by
+  simp [vadd, zeros]
+
+theorem vsum_nil (n : Nat) : vsum n ([] : List (Vec α)) = zeros n := rfl
+
+theorem vsum_cons (n : Nat) (x : Vec α) (xs : List (Vec α)) (hx : x.length = n)
+    (hall : ∀ y ∈ xs, y.length = n) : vsum n (x :: xs) = vadd x (vsum n xs) := by
+  have hall' : ∀ y ∈ x :: xs, y.length = n := by
+    intro y hy
+    rcases List.mem_cons.mp hy with rfl | hy
+    · exact hx
+    · exact hall y hy
+  have hl := vsum_length n xs hall
+  apply toFn_injective n _ _ (vsum_length n _ hall')
+    (by rw [vadd_length _ _ (by omega)]; exact hx)
+  rw [toFn_vsum (xs.length + 1) n (x :: xs) rfl hall', toFn_vadd n x _ (by omega),
+    toFn_vsum xs.length n xs rfl hall, Fin.sum_univ_succ]
+  rfl
+
+theorem zipWith_smul_length (n : Nat) (J : Mat α) (hJ : ∀ row ∈ J, row.length = n) (w : Vec α) :
+    ∀ x ∈ List.zipWith smul w J, x.length = n := by
+  intro x hx
+  obtain ⟨i, hi, rfl⟩ := List.mem_iff_getElem.mp hx
+  rw [List.getElem_zipWith, smul_length]
+  exact hJ _ (List.getElem_mem _)
+
+theorem combine_nil_left (n : Nat) (w : Vec α) : combine n ([] : Mat α) w = zeros n := by
+  simp [combine, vsum]
+
+theorem combine_nil_right (n : Nat) (J : Mat α) : combine n J ([] : Vec α) = zeros n := by
+  simp [combine, vsum]
+
+theorem combine_cons (n : Nat) (row : Vec α) (J : Mat α) (a : α) (w : Vec α)
+    (hrow : row.length = n) (hJ : ∀ r ∈ J, r.length = n) :
+    combine n (row :: J) (a :: w) = vadd (smul a row) (combine n J w) := by
+  rw [combine, List.zipWith_cons_cons, vsum_cons n _ _ (by rw [smul_length]; exact hrow)
+    (zipWith_smul_length n J hJ w)]
+  rfl
+
+theorem combine_length (n : Nat) (J : Mat α) (hJ : ∀ r ∈ J, r.length = n) (w : Vec α) :
+    (combine n J w).length = n :=
+  vsum_length n _ (zipWith_smul_length n J hJ w)
+
+/-- `⟨J r, w⟩ = ⟨r, Jᵀ w⟩`, no length hypothesis on `w` (both sides truncate / zero-pad alike) -/
+theorem dot_matVec_combine (n : Nat) (r : Vec α) : ∀ (J : Mat α) (w : Vec α),
+    (∀ row ∈ J, row.length = n) → dot (matVec J r) w = dot r (combine n J w)
+  | [], w, _ => by
+    rw [combine_nil_left, dot_zeros_right]; simp [matVec, dot_nil_left]
+  | row :: J, [], _ => by
+    rw [combine_nil_right, dot_zeros_right, dot_nil_right]
+  | row :: J, a :: w, h => by
+    have hrow : row.length = n := h row (by simp)
+    have hJ : ∀ r ∈ J, r.length = n := fun r hr => h r (by simp [hr])
+    rw [combine_cons n row J a w hrow hJ,
+      dot_vadd_right _ _ _ (by rw [smul_length, combine_length n J hJ]; exact hrow),
+      dot_smul_right, ← dot_matVec_combine n r J w hJ]
+    show dot (dot row r :: matVec J r) (a :: w) = _
+    rw [dot_cons_cons, dot_comm' row r, mul_comm]
+
+theorem gram_getD (J : Mat α) (i : Nat) (hi : i < J.length) :
+    (gram J).getD i [] = matVec J (J.getD i []) := by
+  simp [gram, matVec, List.getD_eq_getElem?_getD, List.getElem?_eq_getElem hi]
+  exact fun a _ => dot_comm' _ _
+
+/-- `(J Jᵀ w)_i = ⟨j_i, Jᵀ w⟩` -/
+theorem gram_matVec_getD (n : Nat) (J : Mat α) (hJ : ∀ row ∈ J, row.length = n) (w : Vec α)
+    (i : Nat) (hi : i < J.length) :
+    (matVec (gram J) w).getD i 0 = dot (J.getD i []) (combine n J w) := by
+  rw [matVec_getD, gram_getD J i hi, dot_matVec_combine n _ J w hJ]
+
+theorem getD_map_lt {β γ : Type} (g : β → γ) (l : List β) (i : Nat) (hi : i < l.length) (d : β)
+    (e : γ) : (l.map g).getD i e = g (l.getD i d) := by
+  simp [List.getD_eq_getElem?_getD, List.getElem?_eq_getElem hi]
+
+theorem zeros_no_nonzero (n : Nat) : ¬ ∃ x ∈ (zeros n : Vec α), x ≠ 0 := by
+  rintro ⟨x, hx, hx0⟩
+  exact hx0 (List.eq_of_mem_replicate hx)
+
+theorem combine_zero_matrix (n : Nat) : ∀ (m : Nat) (w : Vec α),
+    combine n (List.replicate m (zeros n : Vec α)) w = zeros n
+  | 0, w => combine_nil_left n w
+  | m + 1, [] => combine_nil_right n _
+  | m + 1, a :: w => by
+    rw [List.replicate_succ, combine_cons n _ _ a w (zeros_length n)
+      (fun r hr => by rw [List.eq_of_mem_replicate hr]; exact zeros_length n),
+      combine_zero_matrix n m w, smul_zeros, vadd_zeros_zeros]
+
+theorem dot_self_nonneg (x : Vec α) : 0 ≤ dot x x := by
+  rw [dot_eq_left x.length x x le_rfl]
+  exact dotProduct_self_nonneg' _
+
+/-! ### IMTL-G -/
+
+theorem imtlg_proj (J : Mat α) (m n : Nat) (hJ : MatWF J m n) (d v : Vec α)
+    (hcert : matVec (gram J) v = d) (s : α) (i : Nat) (hi : i < m) :
+    dot (J.getD i []) (combine n J (v.map (· / s))) = s⁻¹ * d.getD i 0 := by
+  have e : v.map (· / s) = smul s⁻¹ v := by simp [smul, div_eq_inv_mul]
+  rw [e, ← gram_matVec_getD n J hJ.2 _ i (by rw [hJ.1]; exact hi), matVec_getD, dot_smul_right,
+    ← matVec_getD, hcert]
+
+/-! ### ConFIG -/
+
+theorem unitRows_wf (J : Mat α) (m n : Nat) (hJ : MatWF J m n) (d : Vec α) (hd : d.length = m) :
+    MatWF (List.zipWith (fun row di => row.map (· / di)) J d) m n := by
+  refine ⟨by simp [hJ.1, hd], fun x hx => ?_⟩
+  obtain ⟨i, hi, rfl⟩ := List.mem_iff_getElem.mp hx
+  rw [List.getElem_zipWith, List.length_map]
+  exact hJ.2 _ (List.getElem_mem _)
+
+theorem unitRows_getD (J : Mat α) (d : Vec α) (i : Nat) (hi : i < J.length) (hi' : i < d.length) :
+    (List.zipWith (fun row di => row.map (· / di)) J d).getD i [] =
+      (J.getD i []).map (· / d.getD i 0) := by
+  simp [List.getD_eq_getElem?_getD, List.getElem?_zipWith, List.getElem?_eq_getElem hi,
+    List.getElem?_eq_getElem hi']
+
+theorem config_cosines_aux (J : Mat α) (m n : Nat) (hJ : MatWF J m n) (d w : Vec α)
+    (hd : d.length = m) (hw : w.length = m) (hdpos : ∀ x ∈ d, 0 < x) (hwpos : ∀ x ∈ w, 0 < x)
+    (U : Mat α) (hU : U = List.zipWith (fun row di => row.map (· / di)) J d) (y : Vec α)
+    (hc : matVec (gram U) y = w) (best : Vec α) (hbest : best = combine n U y)
+    (hbb : dot best best ≠ 0) :
+    0 < (J.map fun row => dot row best).sum / dot best best ∧ ∀ i, i < m →
+      dot ((J.getD i []).map (· / d.getD i 0))
+        (smul ((J.map fun row => dot row best).sum / dot best best) best) =
+      (J.map fun row => dot row best).sum / dot best best * w.getD i 0 := by
+  have hUwf : MatWF U m n := hU ▸ unitRows_wf J m n hJ d hd
+  have hUi : ∀ i, i < m → U.getD i [] = (J.getD i []).map (· / d.getD i 0) := by
+    intro i hi
+    rw [hU, unitRows_getD J d i (by rw [hJ.1]; exact hi) (by omega)]
+  have hproj : ∀ i, i < m → dot (U.getD i []) best = w.getD i 0 := by
+    intro i hi
+    rw [hbest, ← gram_matVec_getD n U hUwf.2 y i (by rw [hUwf.1]; exact hi), hc]
+  have hJi : ∀ i, i < m → dot (J.getD i []) best = d.getD i 0 * w.getD i 0 := by
+    intro i hi
+    have hdi : 0 < d.getD i 0 := hdpos _ (getD_mem d 0 i (by omega))
+    have e : J.getD i [] = smul (d.getD i 0) (U.getD i []) := by
+      rw [hUi i hi, smul, List.map_map]
+      conv_lhs => rw [← List.map_id (J.getD i [])]
+      apply List.map_congr_left
+      intro x _
+      simp only [id, Function.comp]
+      field_simp
+    rw [e, dot_smul_left, hproj i hi]
+  have hlen : (J.map fun row => dot row best).sum = ∑ i : Fin m, d.getD i 0 * w.getD i 0 := by
+    rw [list_sum_eq_sum m _ (by simp [hJ.1])]
+    apply Finset.sum_congr rfl
+    intro i _
+    rw [getD_map_lt _ J i (by rw [hJ.1]; exact i.2) [] 0, hJi i i.2]
+  have hmpos : 0 < m := by
+    by_contra h0
+    have hm0 : m = 0 := by omega
+    subst hm0
+    have hnil : U = [] := List.eq_nil_of_length_eq_zero hUwf.1
+    apply hbb
+    rw [hbest, hnil, combine_nil_left, dot_zeros_left]
+  have hlenpos : 0 < (J.map fun row => dot row best).sum := by
+    rw [hlen]
+    apply Finset.sum_pos
+    · intro i _
+      exact mul_pos (hdpos _ (getD_mem d 0 i (by omega))) (hwpos _ (getD_mem w 0 i (by omega)))
+    · exact ⟨⟨0, hmpos⟩, Finset.mem_univ _⟩
+  have hbbpos : 0 < dot best best := lt_of_le_of_ne (dot_self_nonneg best) (Ne.symm hbb)
+  refine ⟨div_pos hlenpos hbbpos, fun i hi => ?_⟩
+  rw [← hUi i hi, dot_smul_right, hproj i hi]
+
+theorem config_length_aux (J : Mat α) (best : Vec α) (hbb : dot best best ≠ 0) (t : α)
+    (ht : t = (J.map fun row => dot row best).sum / dot best best) :
+    dot (smul t best) (smul t best) = (J.map fun row => dot row (smul t best)).sum := by
+  simp only [dot_smul_right, dot_smul_left]
+  rw [List.sum_map_mul_left, ht]
+  field_simp
+
+theorem config_length_zero (J : Mat α) (n : Nat) :
+    dot (zeros n : Vec α) (zeros n) = (J.map fun row => dot row (zeros n)).sum := by
+  simp [dot_zeros_right]
+
+/-! ### Aligned-MTL -/
+
+theorem alignedCert_spec (M vecs : Mat α) (sigma : Vec α) (h : alignedCert M vecs sigma = true) :
+    vecs.length = sigma.length ∧ (∀ s ∈ sigma, 0 < s) ∧
+    (∀ i j, i < vecs.length → j < vecs.length →
+      dot (vecs.getD i []) (vecs.getD j []) = if i = j then 1 else 0) ∧
+    (∀ a b, a < M.length → b < M.length → (M.getD a []).getD b 0 =
+      (List.zipWith (fun v s => s * s * v.getD a 0 * v.getD b 0) vecs sigma).sum) := by
+  simp only [alignedCert, Bool.and_eq_true, beq_iff_eq, List.all_eq_true, decide_eq_true_eq] at h
+  obtain ⟨⟨⟨h1, h2⟩, h3⟩, h4⟩ := h
+  refine ⟨h1, h2, fun i j hi hj => ?_, fun a b ha hb => ?_⟩
+  · have e1 : (vecs.getD i [], i) ∈ vecs.zipIdx := by
+      rw [List.mk_mem_zipIdx_iff_getElem?]
+      simp [List.getD_eq_getElem?_getD, List.getElem?_eq_getElem hi]
+    have e2 : (vecs.getD j [], j) ∈ vecs.zipIdx := by
+      rw [List.mk_mem_zipIdx_iff_getElem?]
+      simp [List.getD_eq_getElem?_getD, List.getElem?_eq_getElem hj]
+    exact h3 _ e1 _ e2
+  · exact h4 a (List.mem_range.mpr ha) b (List.mem_range.mpr hb)
+
+theorem toFn_oneHot (m a : Nat) (j : Fin m) :
+    toFn m (oneHot m a : Vec α) j = if (j : Nat) = a then 1 else 0 := by
+  simp [toFn, oneHot, List.getD_eq_getElem?_getD, List.getElem?_range j.2]
+
+theorem dot_oneHot (v : Vec α) (m a : Nat) (ha : a < m) (hv : v.length = m) :
+    dot v (oneHot m a) = v.getD a 0 := by
+  rw [dot_eq_sum_left m v _ hv.le]
+  have : ∀ j : Fin m, v.getD j 0 * (oneHot m a : Vec α).getD j 0 =
+      if j = (⟨a, ha⟩ : Fin m) then v.getD a 0 else 0 := by
+    intro j
+    have := toFn_oneHot (α := α) m a j
+    rw [toFn_apply] at this
+    rw [this]
+    by_cases hj : (j : Nat) = a
+    · have : j = (⟨a, ha⟩ : Fin m) := Fin.ext hj
+      simp [hj, this]
+    · have : j ≠ (⟨a, ha⟩ : Fin m) := fun e => hj (congrArg Fin.val e)
+      simp [hj, this]
+  simp only [this]
+  simp
+
+/-- the balance transformation applied to `w`, entry-wise -/
+theorem toFn_alignedB (vecs : Mat α) (sigma : Vec α) (k m : Nat) (hk : vecs.length = k)
+    (hs : sigma.length = k) (hv : ∀ v ∈ vecs, v.length = m) (c : α) (w : Vec α) :
+    toFn m (vsum m (List.zipWith (fun v s => smul (c / s * dot v w) v) vecs sigma)) =
+      fun a => ∑ i : Fin k, (c / toFn k sigma i * dot (vecs.getD i []) w) * toMat k m vecs i a := by
+  have hlen : (List.zipWith (fun v s => smul (c / s * dot v w) v) vecs sigma).length = k := by
+    simp [hk, hs]
+  have hall : ∀ x ∈ List.zipWith (fun v s => smul (c / s * dot v w) v) vecs sigma,
+      x.length = m := by
+    intro x hx
+    obtain ⟨i, hi, rfl⟩ := List.mem_iff_getElem.mp hx
+    rw [List.getElem_zipWith, smul_length]
+    exact hv _ (List.getElem_mem _)
+  rw [toFn_vsum k m _ hlen hall]
+  funext a
+  rw [Finset.sum_apply]
+  apply Finset.sum_congr rfl
+  intro i _
+  have hi1 : (i : Nat) < vecs.length := by omega
+  have hi2 : (i : Nat) < sigma.length := by omega
+  have e : (List.zipWith (fun v s => smul (c / s * dot v w) v) vecs sigma).getD i [] =
+      smul (c / sigma.getD i 0 * dot (vecs.getD i []) w) (vecs.getD i []) := by
+    simp [List.getD_eq_getElem?_getD, List.getElem?_zipWith, List.getElem?_eq_getElem hi1,
+      List.getElem?_eq_getElem hi2]
+  rw [e, toFn_smul]
+  rfl
+
+theorem alignedB_length (vecs : Mat α) (sigma : Vec α) (m : Nat)
+    (hv : ∀ v ∈ vecs, v.length = m) (c : α) (w : Vec α) :
+    (vsum m (List.zipWith (fun v s => smul (c / s * dot v w) v) vecs sigma)).length = m := by
+  apply vsum_length
+  intro x hx
+  obtain ⟨i, hi, rfl⟩ := List.mem_iff_getElem.mp hx
+  rw [List.getElem_zipWith, smul_length]
+  exact hv _ (List.getElem_mem _)
+
+theorem alignedB_add (vecs : Mat α) (sigma : Vec α) (m : Nat) (hs : vecs.length = sigma.length)
+    (hv : ∀ v ∈ vecs, v.length = m) (c : α) (w₁ w₂ : Vec α) (hw : w₁.length = w₂.length) :
+    vsum m (List.zipWith (fun v s => smul (c / s * dot v (vadd w₁ w₂)) v) vecs sigma) =
+      vadd (vsum m (List.zipWith (fun v s => smul (c / s * dot v w₁) v) vecs sigma))
+        (vsum m (List.zipWith (fun v s => smul (c / s * dot v w₂) v) vecs sigma)) := by
+  have l1 := alignedB_length vecs sigma m hv c w₁
+  have l2 := alignedB_length vecs sigma m hv c w₂
+  apply toFn_injective m _ _ (alignedB_length vecs sigma m hv c _)
+    (by rw [vadd_length _ _ (by omega)]; exact l1)
+  rw [toFn_vadd m _ _ (by omega), toFn_alignedB vecs sigma sigma.length m hs rfl hv,
+    toFn_alignedB vecs sigma sigma.length m hs rfl hv,
+    toFn_alignedB vecs sigma sigma.length m hs rfl hv]
+  funext a
+  simp only [Pi.add_apply, dot_vadd_right _ _ _ hw]
+  rw [← Finset.sum_add_distrib]
+  apply Finset.sum_congr rfl
+  intro i _
+  ring
+
+theorem gram_length (J : Mat α) : (gram J).length = J.length := by simp [gram]
+
+theorem gram_getD_getD (J : Mat α) (a b : Nat) (ha : a < J.length) :
+    ((gram J).getD a []).getD b 0 = dot (J.getD a []) (J.getD b []) := by
+  rw [gram_getD J a ha, matVec_getD, dot_comm']
+
+theorem aligned_matrix_identity {m : Nat} (V : Matrix (Fin m) (Fin m) α) (σ : Fin m → α) (c : α)
+    (hσ : ∀ i, σ i ≠ 0) (hV : V * Vᵀ = 1) (G B : Matrix (Fin m) (Fin m) α)
+    (hG : G = Vᵀ * diagonal (fun i => σ i * σ i) * V)
+    (hB : B = Vᵀ * diagonal (fun i => c / σ i) * V) :
+    Bᵀ * G * B = (c * c) • (1 : Matrix (Fin m) (Fin m) α) := by
+  have hV' : Vᵀ * V = 1 := mul_eq_one_comm.mp hV
+  have hBt : Bᵀ = B := by
+    rw [hB]
+    simp only [transpose_mul, diagonal_transpose, transpose_transpose, Matrix.mul_assoc]
+  have e : ∀ X : Matrix (Fin m) (Fin m) α, V * (Vᵀ * X) = X := fun X => by
+    rw [← Matrix.mul_assoc, hV, Matrix.one_mul]
+  have hD : ∀ X : Matrix (Fin m) (Fin m) α,
+      diagonal (fun i => c / σ i) * (diagonal (fun i => σ i * σ i) *
+        (diagonal (fun i => c / σ i) * X)) = (c * c) • X := by
+    intro X
+    rw [← Matrix.mul_assoc, ← Matrix.mul_assoc, diagonal_mul_diagonal, diagonal_mul_diagonal]
+    have : (fun i => c / σ i * (σ i * σ i) * (c / σ i)) = fun _ : Fin m => c * c := by
+      funext i
+      have := hσ i
+      field_simp
+    rw [this]
+    ext i j
+    simp [diagonal_mul]
+  rw [hBt, hG, hB]
+  simp only [Matrix.mul_assoc, e, hD]
+  rw [Matrix.mul_smul, hV']
+
+theorem dot_combine_eq {m n : Nat} (A : Matrix (Fin m) (Fin n) α) (B : Matrix (Fin m) (Fin m) α)
+    (a b : Fin m) : (Bᵀ a ᵥ* A) ⬝ᵥ (Bᵀ b ᵥ* A) = (Bᵀ * (A * Aᵀ) * B) a b := by
+  have : (Bᵀ * (A * Aᵀ) * B) = (Bᵀ * A) * (Bᵀ * A)ᵀ := by
+    rw [transpose_mul, transpose_transpose]
+    simp only [Matrix.mul_assoc]
+  rw [this]
+  rfl
+
+theorem aligned_balanced_aux (J : Mat α) (m n : Nat) (hJ : MatWF J m n) (vecs : Mat α)
+    (sigma : Vec α) (hfull : vecs.length = m) (hv : ∀ v ∈ vecs, v.length = m)
+    (hcert : alignedCert (gram J) vecs sigma = true) (c : α) (a b : Nat) (ha : a < m) (hb : b < m) :
+    dot (combine n J (vsum m (List.zipWith (fun v s => smul (c / s * dot v (oneHot m a)) v)
+          vecs sigma)))
+        (combine n J (vsum m (List.zipWith (fun v s => smul (c / s * dot v (oneHot m b)) v)
+          vecs sigma))) =
+      if a = b then c * c else 0 := by
+  obtain ⟨h1, h2, h3, h4⟩ := alignedCert_spec _ _ _ hcert
+  have hs : sigma.length = m := by omega
+  have hVwf : MatWF vecs m m := ⟨hfull, hv⟩
+  have hσ : ∀ i : Fin m, toFn m sigma i ≠ 0 := fun i =>
+    (h2 _ (getD_mem sigma 0 i (by rw [hs]; exact i.2))).ne'
+  have hV : toMat m m vecs * (toMat m m vecs)ᵀ = 1 := by
+    ext i j
+    rw [← dot_rows vecs m m hVwf i j, h3 i j (by rw [hfull]; exact i.2) (by rw [hfull]; exact j.2),
+      Matrix.one_apply]
+    simp only [Fin.ext_iff]
+  have hG : toMat m n J * (toMat m n J)ᵀ =
+      (toMat m m vecs)ᵀ * diagonal (fun i => toFn m sigma i * toFn m sigma i) * toMat m m vecs := by
+    ext i j
+    rw [← dot_rows J m n hJ i j, ← gram_getD_getD J i j (by rw [hJ.1]; exact i.2),
+      h4 i j (by rw [gram_length, hJ.1]; exact i.2) (by rw [gram_length, hJ.1]; exact j.2),
+      list_sum_eq_sum m _ (by simp [hfull, hs]), Matrix.mul_apply]
+    apply Finset.sum_congr rfl
+    intro k _
+    have hk1 : (k : Nat) < vecs.length := by rw [hfull]; exact k.2
+    have hk2 : (k : Nat) < sigma.length := by rw [hs]; exact k.2
+    have e : (List.zipWith (fun v s => s * s * v.getD i 0 * v.getD j 0) vecs sigma).getD k 0 =
+        sigma.getD k 0 * sigma.getD k 0 * (vecs.getD k []).getD i 0 * (vecs.getD k []).getD j 0 := by
+      simp [List.getD_eq_getElem?_getD, List.getElem?_zipWith, List.getElem?_eq_getElem hk1,
+        List.getElem?_eq_getElem hk2]
+    rw [e, Matrix.mul_diagonal]
+    simp only [Matrix.transpose_apply, toMat_apply, toFn_apply]
+    ring
+  have hW : ∀ (e : Nat) (he : e < m),
+      toFn m (vsum m (List.zipWith (fun v s => smul (c / s * dot v (oneHot m e)) v) vecs sigma)) =
+      fun x => ((toMat m m vecs)ᵀ * diagonal (fun i => c / toFn m sigma i) * toMat m m vecs) x
+        ⟨e, he⟩ := by
+    intro e he
+    rw [toFn_alignedB vecs sigma m m hfull hs hv]
+    funext x
+    rw [Matrix.mul_apply]
+    apply Finset.sum_congr rfl
+    intro k _
+    have hk1 : (k : Nat) < vecs.length := by rw [hfull]; exact k.2
+    rw [Matrix.mul_diagonal, dot_oneHot _ m e he (hv _ (getD_mem vecs [] k hk1))]
+    simp only [Matrix.transpose_apply, toMat_apply]
+    ring
+  rw [dot_eq_left n _ _ (combine_length n J hJ.2 _).le,
+    toFn_combine J m n hJ _ (alignedB_length vecs sigma m hv c _),
+    toFn_combine J m n hJ _ (alignedB_length vecs sigma m hv c _), hW a ha, hW b hb]
+  have key := aligned_matrix_identity (toMat m m vecs) (toFn m sigma) c hσ hV _ _ hG rfl
+  have := dot_combine_eq (toMat m n J)
+    ((toMat m m vecs)ᵀ * diagonal (fun i => c / toFn m sigma i) * toMat m m vecs) ⟨a, ha⟩ ⟨b, hb⟩
+  rw [key] at this
+  refine Eq.trans this ?_
+  simp [Matrix.smul_apply, Matrix.one_apply, Fin.ext_iff]
 
 end Tjd.Agg
